@@ -15,7 +15,7 @@ import (
 	"fxverif/lib"
 )
 
-// findingViaPrecompile replays C18-1 end to end: the claim is observed by the oracles and executed by an
+// findingViaPrecompile replays the (fixed) finding C18-1 end to end: the claim is observed by the oracles and executed by an
 // ordinary account through the executeClaim precompile (real EVM transaction path), on a branch of the state.
 func (e *env) findingViaPrecompile() {
 	c, x := e.c, e.x
@@ -39,10 +39,12 @@ func (e *env) findingViaPrecompile() {
 	after := [2]string{tok.Bank(c, B, e.cWriteRevert.Bytes(), t.Base).String(), tok.Bank(c, B, victim.Bytes(), t.Base).String()}
 	n := 0
 	x.Keeper.IterateOutgoingBridgeCalls(B, func(o *crosschaintypes.OutgoingBridgeCall) bool { n++; return false })
-	e.rep.Notes = append(e.rep.Notes, fmt.Sprintf("C18-1 through the executeClaim precompile: evm failed=%v err=%v; receiver(contract) base coins %s -> %s, refund address base coins %s -> %s, outgoing refund calls=%d",
-		res.Failed, res.Err, before[0], after[0], before[1], after[1], n))
-	if !(res.Err == nil && !res.Failed && after[0] == "10" && after[1] == "990") {
-		e.rep.Notes = append(e.rep.Notes, "C18-1 did NOT reproduce through the precompile on this tree")
+	// regression of finding C18-1 (fixed): the deposit must go out again as the refund — nobody's balance changes
+	if !(res.Err == nil && !res.Failed && after[0] == before[0] && after[1] == before[1] && n == 1) {
+		e.failSig(lib.Failure{Kind: "monitor", Sig: "C18:bridgecall:precompile",
+			What: "failed inbound bridge call executed through the executeClaim precompile did not end in the designated refund",
+			Replay: map[string]interface{}{"evm_failed": res.Failed, "err": fmt.Sprint(res.Err), "receiver_base_coins": before[0] + " -> " + after[0],
+				"refund_address_base_coins": before[1] + " -> " + after[1], "outgoing_refund_calls": n}})
 	}
 }
 
